@@ -20,15 +20,27 @@ python3 - "$S" <<'PY'
 import re,sys,json
 S=sys.argv[1]
 w=open(S+'/with_change.log').read(); wo=open(S+'/without_change.log').read()
-failed_with=sorted(set(re.findall(r'test (\S+) \.\.\. FAILED',w)))
+def by_section(text):
+    """(test name, status, is_demo_binary) for every result line, by the test binary it was printed under"""
+    out=[]; demo=False
+    for line in text.splitlines():
+        m=re.match(r'\s*Running (\S+)',line)
+        if m:
+            demo=bool(re.search(r'mutation\d?_demo_',m.group(1))); continue
+        for t,st in re.findall(r'test (\S+) \.\.\. (ok|FAILED)',line):
+            out.append((t,st,demo))
+    return out
+rw=by_section(w)
+failed_with=sorted(set(t for t,st,d in rw if st=='FAILED'))
 baseline={'test_btc_rpc_precompiles_mainnet','test_btc_rpc_precompiles_signet'}
 compiled='error: could not compile' not in w and 'error[E' not in w
-suite_fail=[t for t in failed_with if t not in baseline and 'mutation' not in t and 'demo' not in t]
-demo_fail=[t for t in failed_with if 'mutation' in t or 'demo' in t]
+isdemo=lambda t: any(d for t2,st,d in rw if t2==t) or 'mutation' in t or 'demo' in t
+suite_fail=[t for t in failed_with if t not in baseline and not isdemo(t)]
+demo_fail=[t for t in failed_with if isdemo(t)]
 passed_without=re.findall(r'^test (\S+) \.\.\. ok',wo,re.M)
 failed_without=re.findall(r'^test (\S+) \.\.\. FAILED',wo,re.M)
 res={"applies":True,"compiles":compiled,"suite_failures_beyond_baseline":suite_fail,"demo_tests_failing_with_change":demo_fail,
-     "demo_tests_passing_without_change":[t for t in passed_without if 'mutation' in t or 'demo' in t],"demo_tests_failing_without_change":failed_without,
+     "demo_tests_passing_without_change":passed_without,"demo_tests_failing_without_change":failed_without,
      "confirmed": compiled and not suite_fail and len(demo_fail)>0 and not failed_without}
 json.dump(res,open(S+'/confirm.json','w'),indent=1); print(S, json.dumps(res))
 PY
